@@ -459,6 +459,11 @@ func metadataCases(ntrees int, base string) {
 			switch rng.Intn(5) {
 			case 0, 1:
 				if os.Mkdir(p, os.FileMode(0o700|rng.Intn(0o100))) == nil {
+					// some directories carry the sticky bit (spools): it has no counterpart in a 9P mode, and it must not
+					// disturb the rest (the set-id bits would need the model to be told of them: not generated)
+					if rng.Intn(3) == 0 {
+						_ = os.Chmod(p, os.FileMode(0o755)|os.ModeSticky)
+					}
 					dirs = append(dirs, p)
 					all = append(all, p)
 				}
@@ -674,6 +679,16 @@ func metadataCases(ntrees int, base string) {
 				}
 				if srcPath != wantSrc {
 					ok = false
+				}
+				if inplace && wantN >= 1 && wantN < len(names) {
+					// the walk was partial: the fid was left where it was (the root), and as what it was (a directory):
+					// the first element, which exists, can still be walked to from it
+					probe := t.clnt.FidAlloc()
+					if _, e := t.clnt.Walk(src, probe, names[:1]); e != nil {
+						ok = false
+					} else {
+						_ = t.clnt.Clunk(probe)
+					}
 				}
 				if !inplace && err == nil && wantN == len(names) {
 					if filepath.Clean(t.spy.pathOf(dst.Fid)) != filepath.Join(append([]string{root}, names...)...) {
